@@ -26,19 +26,19 @@ type onlineEntry struct {
 }
 
 type model struct {
-	round   uint64
-	accts   map[int]trackerdb.BaseAccountData
-	res     map[resKey]trackerdb.ResourcesData
-	kv      map[string][]byte
-	creat   map[basics.CreatableIndex]creatEntry
-	online  map[int]map[uint64]onlineEntry // full history, never pruned in the model
-	onlFB   uint64                         // largest forgetBefore passed to OnlineAccountsDelete so far
+	round  uint64
+	accts  map[int]trackerdb.BaseAccountData
+	res    map[resKey]trackerdb.ResourcesData
+	kv     map[string][]byte
+	creat  map[basics.CreatableIndex]creatEntry
+	online map[int]map[uint64]onlineEntry // full history, never pruned in the model
+	onlFB  uint64                         // largest forgetBefore passed to OnlineAccountsDelete so far
 	// hist is the pruned online-account table as each backend documents its own OnlineAccountsDelete:
 	// [0] sqlitedriver (rows with updRound < forgetBefore, run after the commit's inserts),
 	// [1] generickv (rows with round <= forgetBefore, evaluated on the transaction's begin-snapshot, i.e.
 	// without the commit's own inserts). Where the two variants differ and each backend matches its own,
 	// the difference is the known finding OnlineAccountsDelete/*, nothing else.
-	hist [2]map[int]map[uint64]onlineEntry
+	hist    [2]map[int]map[uint64]onlineEntry
 	params  map[uint64]ledgercore.OnlineRoundParamsData
 	txtail  map[uint64][]byte
 	totals  map[bool]*ledgercore.AccountTotals
